@@ -247,7 +247,9 @@ const TAILS2: [&str; 30] = [
     "(a INT foo)", "(a ARRAY<INT>)", "(a)", "(INT a)", "(a.b INT)", "(a b.c)", "(1, 2)", "(a, b)",
 ];
 
-const CUSTOMS: [&str; 40] = [
+const CUSTOMS: [&str; 48] = [
+    // string-literal modifiers are stored in their SQL spelling: blanks, doubled quotes, the `''` and `\'` quirks of the printer
+    "foo('it''s')", "foo('a''''b')", "foo('a\\''b')", "foo('a\\b')", "foo('x y', 1, z)", "foo('a' 'b')", "foo(N'x')", "foo('é 中')",
     "foo", "foo.bar", "foo.bar.baz", "\"foo\"", "`foo`", "[foo]", "'foo'", "\"foo\".bar", "foo.\"bar\"", "foo.'bar'", "\"a.b\".c", "a.\"b.c\"",
     "`a.b`", "a.b.", "foo(1)", "foo(1, 2)", "foo(a, b)", "foo(a b)", "foo('a')", "foo('a b')", "foo('')", "foo()", "foo(,)", "foo(,a,,b,)",
     "foo(+)", "foo(1.5, 2L)", "foo(\"q\", `r`)", "foo(INT)", "foo(a(b))", "foo(a", "GEOMETRY(POINT, 4326)", "VARCHAR2(10)", "public.citext",
@@ -353,7 +355,7 @@ fn random_nest(rng: &mut Rng, depth: usize) -> String {
 }
 
 pub fn corr_parse(dir: &str, seed: u64, tier: &str) -> Report {
-    let mut r = Report::new("C18", "corr.dtparse", "real Parser::parse_data_type on token vectors (real tokenizer, whitespace dropped) vs model parseDT, answer = S-expression of the value + number of tokens left, or the error (message incl. found token; class for the two `unmatched >` errors and the recursion limit): 73 type keywords + plain/quoted custom names x 72 parameter tails (absent/0/1/255/2^64-1/2^64/non-integers, precision+scale, UNSIGNED, PRECISION, VARYING, LARGE OBJECT, WITH/WITHOUT TIME ZONE and their truncations, MAX/CHARACTERS/OCTETS, label lists, DateTime64 zones of every string-token kind, [] suffixes, <..> and (..) element forms) + 30 field-list tails, 40 custom-name/modifier forms, the nesting grid (18 wrappers incl. ARRAY<@>, ARRAY<@ >, STRUCT<..@>, Map, Tuple, Nested, Nullable, [] suffixes, DuckDB STRUCT(..)/UNION(..)) to depth 2 (thorough: 3) over 3 bases, every truncation / single-token deletion / token replacement of the depth-1 and sampled depth-2 texts, nesting around the recursion limit, random deeper nestings; x 13 dialects; non-trivial = distinct (dialect, answer)");
+    let mut r = Report::new("C18", "corr.dtparse", "real Parser::parse_data_type on token vectors (real tokenizer, whitespace dropped) vs model parseDT, answer = S-expression of the value + number of tokens left, or the error (message incl. found token; class for the two `unmatched >` errors and the recursion limit): 73 type keywords + plain/quoted custom names x 72 parameter tails (absent/0/1/255/2^64-1/2^64/non-integers, precision+scale, UNSIGNED, PRECISION, VARYING, LARGE OBJECT, WITH/WITHOUT TIME ZONE and their truncations, MAX/CHARACTERS/OCTETS, label lists, DateTime64 zones of every string-token kind, [] suffixes, <..> and (..) element forms) + 30 field-list tails, 48 custom-name/modifier forms (string-literal modifiers with blanks, doubled quotes, backslashes), the nesting grid (18 wrappers incl. ARRAY<@>, ARRAY<@ >, STRUCT<..@>, Map, Tuple, Nested, Nullable, [] suffixes, DuckDB STRUCT(..)/UNION(..)) to depth 2 (thorough: 3) over 3 bases, every truncation / single-token deletion / token replacement of the depth-1 and sampled depth-2 texts, nesting around the recursion limit, random deeper nestings; x 13 dialects; non-trivial = distinct (dialect, answer)");
     let thorough = tier == "thorough";
     let mut s = Stream::new(dir, "dtparse");
     let mut rng = Rng(seed ^ 0xC18);
@@ -551,7 +553,9 @@ pub fn leaf_values() -> Vec<DataType> {
     }
     // custom names x modifiers
     let ids = idents();
-    let modsets: Vec<Vec<&str>> = vec![vec![], vec!["1"], vec!["a", "b"], vec!["POINT", "4326"], vec!["a b"], vec![""], vec!["'x'"], vec!["\"q\""], vec!["x'y"], vec!["1.5", "2L"], vec!["a", ""]];
+    let modsets: Vec<Vec<&str>> = vec![vec![], vec!["1"], vec!["a", "b"], vec!["POINT", "4326"], vec!["a b"], vec![""], vec!["'x'"], vec!["\"q\""], vec!["x'y"], vec!["1.5", "2L"], vec!["a", ""],
+        // SQL spellings of string literals (what the parser stores for `foo('..')`), and texts that only look like one
+        vec!["'a b'"], vec!["''"], vec!["'it''s'", "1"], vec!["'a\\b'"], vec!["'a\\'b'"], vec!["'a'b'"], vec!["'a' 'b'"]];
     for i in &ids {
         for m in &modsets {
             v.push(Custom(ObjectName(vec![i.clone()]), m.iter().map(|s| s.to_string()).collect()));
@@ -638,12 +642,14 @@ pub fn nested_values(depth: usize, nbase: usize) -> Vec<DataType> {
 /// token by token in every dialect family: the ones worth nesting (the others are covered as leaves)
 fn clean_leaves(leaves: &[DataType]) -> Vec<DataType> {
     let bad = |s: &str| s.is_empty() || s.chars().any(|c| c == '\'' || c == '\\' || c == '"' || c == ' ' || !c.is_ascii());
+    // `'..'` around a payload without quote, backslash or non-ASCII (blanks and the empty payload are fine inside quotes)
+    let clean_spelling = |s: &str| s.len() >= 2 && s.starts_with('\'') && s.ends_with('\'') && !s[1..s.len() - 1].chars().any(|c| c == '\'' || c == '\\' || !c.is_ascii());
     leaves
         .iter()
         .filter(|t| match t {
             DataType::Datetime64(_, Some(z)) => !bad(z),
             DataType::Enum(ls) | DataType::Set(ls) => !ls.is_empty() && !ls.iter().any(|l| bad(l)),
-            DataType::Custom(n, ms) => !n.0.is_empty() && n.0.iter().all(|i| !bad(&i.value) && !i.value.starts_with('_') && matches!(i.quote_style, None | Some('"'))) && !ms.iter().any(|m| bad(m)),
+            DataType::Custom(n, ms) => !n.0.is_empty() && n.0.iter().all(|i| !bad(&i.value) && !i.value.starts_with('_') && matches!(i.quote_style, None | Some('"'))) && !ms.iter().any(|m| bad(m) && !clean_spelling(m)),
             _ => true,
         })
         .cloned()
@@ -715,7 +721,7 @@ impl ValOr for G<String> {
 }
 
 pub fn corr_print(dir: &str, seed: u64, tier: &str) -> Report {
-    let mut r = Report::new("C18", "corr.dtprint", "AST-first: DataType VALUES built directly (every constructor x every combination of optional length/precision/scale/unit/zone/signedness with numbers from {absent,0,1,255,2^64-1}, label lists, 12 identifier shapes x 11 modifier lists, every recursive constructor incl. all three array forms, both struct brackets, named/unnamed fields, empty lists; nesting depth <= 2 exhaustively over a small base set (thorough: 3), deeper randomly) -> real to_string() lexed by the real tokenizer of the dialect (whitespace dropped) vs model printDT of the same value (request = S-expression); x 13 dialects for leaves, 5 (thorough 13) for nestings; non-trivial = distinct token lists");
+    let mut r = Report::new("C18", "corr.dtprint", "AST-first: DataType VALUES built directly (every constructor x every combination of optional length/precision/scale/unit/zone/signedness with numbers from {absent,0,1,255,2^64-1}, label lists, 12 identifier shapes x 18 modifier lists (words, numbers, SQL spellings of string literals incl. blank, empty, doubled-quote and backslash payloads, texts that are no single token), every recursive constructor incl. all three array forms, both struct brackets, named/unnamed fields, empty lists; nesting depth <= 2 exhaustively over a small base set (thorough: 3), deeper randomly) -> real to_string() lexed by the real tokenizer of the dialect (whitespace dropped) vs model printDT of the same value (request = S-expression); x 13 dialects for leaves, 5 (thorough 13) for nestings; non-trivial = distinct token lists");
     let thorough = tier == "thorough";
     let mut s = Stream::new(dir, "dtprint");
     let mut rng = Rng(seed ^ 0x18C);
